@@ -84,8 +84,10 @@ def remove_empty_metadata(a: ast.AST) -> ast.AST:
             assert isinstance(n, ast.Call)
             if isinstance(n.func, ast.Name) and n.func.id == "MetaData":
                 if len(n.args) == 2:
-                    d = ast.literal_eval(n.args[1])
-                    if isinstance(d, dict) and len(d) == 0:
+                    # Only a literal empty dictionary is empty - anything else (a name, an
+                    # expression) we cannot evaluate, and it stays where it is.
+                    d = n.args[1]
+                    if isinstance(d, ast.Dict) and len(d.keys) == 0:
                         return n.args[0]
             return n
 
